@@ -477,6 +477,14 @@ func exploreGen(r *rand.Rand, idx int, thorough bool) interface{} {
 			if !ok {
 				timers++
 			}
+			if !infoAll {
+				// the worker this completion frees takes the next queue entry at once; if that entry's job has no client it
+				// fails within microseconds of this probe's failure, and which of the two retry timers fires first a second
+				// later is the scheduler's choice, not the history's (thorough tier, 2 of 3000 histories under load).
+				// The clients come back first; a Get for a job without client still fails at once on a free worker.
+				c.Ops = append(c.Ops, xOp{Kind: "jobinfo", Cfg: []string{"job0", "job1", "job2"}})
+				infoAll = true
+			}
 			c.Ops = append(c.Ops, xOp{Kind: "done", Hash: h, OK: ok, Scraped: int64(r.Intn(500)), Total: int64(500 + r.Intn(500))})
 		case k == 10 && waits < 2 && timers > 0:
 			if !infoAll {
